@@ -1,8 +1,14 @@
 package index
 
 import (
+	"math"
+
 	"github.com/klev-dev/klevdb/pkg/message"
 )
+
+// TimeNone is the previous timestamp to give NewItem when there is no previous message.
+// (Zero would clamp the timestamps of messages dated before 1970 to the epoch.)
+const TimeNone int64 = math.MinInt64
 
 type Item struct {
 	Offset    int64
